@@ -4,12 +4,30 @@
 ;;   |fds=<open descriptors minus the baseline of this history>
 ;; Ids are allocation sequence numbers within the history (hex), the same numbering the model uses.
 ;; Input: one history per line on stdin:  <nslots> <op>;<op>;...   ops: K,i C,i,a,b E,i,k,v D,i G O,i F,i P,i,f X,i
-(import (scheme base) (scheme write) (scheme read) (scheme file) (scheme process-context)
-        (chibi weak) (chibi ast) (chibi filesystem) (only (chibi) fileno?))
+;; and the descriptor operations: W,i,f open-output-file-descriptor; XI,i / XO,i close-input-port / close-output-port;
+;; Q,i,j open-pipe; Y,i close-file-descriptor on the fileno object; U,i,f duplicate-file-descriptor;
+;; T,a,b duplicate-file-descriptor-to; R,a,b renumber-file-descriptor; Z,i,j write a line through the output port
+;; R[j] and read it back through the input port R[i] (its own observation: Zok / Zbad:<why> / Zskip).
+;; After every G also |own=<slot>:<ok|bad>,... : for every slot holding a descriptor owner (fileno, port) whether
+;; /proc/self/fd/<its number> still names the file it named when the owner was created.
+(import (scheme base) (scheme char) (scheme write) (scheme read) (scheme file) (scheme process-context)
+        (chibi weak) (chibi ast) (chibi filesystem) (only (chibi) fileno? port-fileno))
 
 (define (hex n) (number->string n 16))
 
 (define (fd-count) (length (directory-files "/proc/self/fd")))
+
+;; the number of a fileno object: it prints as #<fileno N>
+(define (fileno-number f)
+  (let ((o (open-output-string)))
+    (write f o)
+    (let* ((s (get-output-string o)) (n (string-length s)))
+      (let lp ((i 0) (acc #f))
+        (cond ((= i n) acc)
+              ((char-numeric? (string-ref s i)) (lp (+ i 1) (+ (* 10 (or acc 0)) (digit-value (string-ref s i)))))
+              (else (lp (+ i 1) acc)))))))
+(define (link n) (and n (read-link (string-append "/proc/self/fd/" (number->string n)))))
+(define files (vector "/dev/null" "/dev/zero" "/dev/full" "/dev/urandom"))
 
 (define (split-string str ch)
   (let lp ((i 0) (start 0) (acc '()))
@@ -50,37 +68,101 @@
   (write-string "|fds=" out)
   (write-string (number->string (- (fd-count) base)) out))
 
+(define (observe-owners R NUM LNK out)
+  (write-string "|own=" out)
+  (let lp ((i 0) (first #t))
+    (cond ((< i (vector-length R))
+           (let ((x (vector-ref R i)))
+             (cond ((and (vector-ref NUM i) (or (fileno? x) (port? x)))
+                    (if (not first) (write-string "," out))
+                    (write-string (number->string i) out)
+                    (write-string (if (equal? (link (vector-ref NUM i)) (vector-ref LNK i)) ":ok" ":bad") out)
+                    (lp (+ i 1) #f))
+                   (else (lp (+ i 1) first))))))))
+
 ;; the collection is requested through a call that owns no references of its own; twice, so that anything
 ;; kept by a value that was itself only found dead in the first collection is gone as well
 (define (collect!) (gc) (gc) #t)
 
 (define (run-history nslots ops out)
   (collect!)     ; descriptors still owned by garbage of the previous history are released before the baseline is taken
-  (let ((R (make-vector nslots #f)) (obs '()) (id 0) (base (fd-count)) (firstg #t))
+  (let ((R (make-vector nslots #f)) (obs '()) (id 0) (base (fd-count)) (firstg #t)
+        (NUM (make-vector nslots #f)) (LNK (make-vector nslots #f)) (zn 0))
     (define (fresh!) (set! id (+ id 1)) id)
+    (define (set-owner! i n) (vector-set! NUM i n) (vector-set! LNK i (link n)))
+    (define (sep!) (if (not firstg) (write-string "/" out)) (set! firstg #f))
     (for-each
      (lambda (op)
        (case (car op)
-         ((K) (let ((n (fresh!))) (vector-set! R (cadr op) (make-vector 1 n))))
+         ((K H) (let ((n (fresh!))) (vector-set! R (cadr op) (make-vector 1 n))))
          ((C) (fresh!) (vector-set! R (cadr op) (cons (vector-ref R (list-ref op 2)) (vector-ref R (list-ref op 3)))))
          ((E) (let* ((n (fresh!))
                      (e (make-ephemeron (vector-ref R (list-ref op 2)) (vector-ref R (list-ref op 3)))))
                 (vector-set! R (cadr op) e)
                 (set! obs (cons (cons n e) obs))))
-         ((D) (vector-set! R (cadr op) #f))
+         ((D) (vector-set! R (cadr op) #f) (vector-set! NUM (cadr op) #f))
          ((G) (let ((n (gc-count)))
                 (collect!)
-                (if (not firstg) (write-string "/" out))
-                (set! firstg #f)
+                (sep!)
                 (observe obs base out)
-                (write-string "|gc=" out) (write-string (number->string n) out)))
-         ((O) (fresh!) (vector-set! R (cadr op) (open-input-file "/dev/null")))
-         ((F) (fresh!) (vector-set! R (cadr op) (open "/dev/null" open/read)))
-         ((P) (let ((f (vector-ref R (list-ref op 2))))
-                (if (fileno? f)
-                    (begin (fresh!) (vector-set! R (cadr op) (open-input-file-descriptor f))))))
+                (write-string "|gc=" out) (write-string (number->string n) out)
+                (observe-owners R NUM LNK out)))
+         ((O) (fresh!) (let ((p (open-input-file "/dev/null")))
+                         (vector-set! R (cadr op) p) (set-owner! (cadr op) (port-fileno p))))
+         ((F) (let* ((n (fresh!)) (f (open (vector-ref files (modulo n 4)) open/read)))
+                (vector-set! R (cadr op) f) (set-owner! (cadr op) (fileno-number f))))
+         ((Q) (let ((p (open-pipe)))
+                (fresh!) (fresh!)
+                (vector-set! R (cadr op) (car p)) (set-owner! (cadr op) (fileno-number (car p)))
+                (vector-set! R (list-ref op 2) (cadr p)) (set-owner! (list-ref op 2) (fileno-number (cadr p)))))
+         ((P W) (let ((f (vector-ref R (list-ref op 2))))
+                  (if (fileno? f)
+                      (begin (fresh!)
+                             (vector-set! R (cadr op) (if (eq? (car op) 'P) (open-input-file-descriptor f) (open-output-file-descriptor f)))
+                             (set-owner! (cadr op) (fileno-number f))))))
          ((X) (let ((p (vector-ref R (cadr op))))
-                (if (port? p) (close-input-port p))))
+                (if (port? p) (close-port p))))
+         ((XI) (let ((p (vector-ref R (cadr op))))
+                 (if (port? p) (if (input-port? p) (close-input-port p) (close-port p)))))
+         ((XO) (let ((p (vector-ref R (cadr op))))
+                 (if (port? p) (if (output-port? p) (close-output-port p) (close-port p)))))
+         ((Y) (let ((f (vector-ref R (cadr op))))
+                (if (fileno? f) (close-file-descriptor f))))
+         ((U) (let ((f (vector-ref R (list-ref op 2))))
+                (if (fileno? f)
+                    (let ((g (duplicate-file-descriptor f)))
+                      (fresh!)
+                      (vector-set! R (cadr op) g)
+                      (if (fileno? g) (set-owner! (cadr op) (fileno-number g)) (vector-set! NUM (cadr op) #f))))))
+         ((T R) (let ((a (vector-ref R (cadr op))) (b (vector-ref R (list-ref op 2))))
+                  (if (and (fileno? a) (fileno? b))
+                      (begin
+                        (if (eq? (car op) 'T) (duplicate-file-descriptor-to a b) (renumber-file-descriptor a b))
+                        ;; the number of b now names a's file, for b and for every port over b
+                        (let ((nb (vector-ref NUM (list-ref op 2))))
+                          (let lp ((i 0))
+                            (if (< i nslots)
+                                (begin (if (and nb (equal? (vector-ref NUM i) nb)) (set-owner! i nb))
+                                       (lp (+ i 1))))))))))
+         ((Z) (let ((in (vector-ref R (cadr op))) (o (vector-ref R (list-ref op 2))))
+                (sep!)
+                (set! zn (+ zn 1))
+                (if (and (port? in) (input-port? in) (port? o) (output-port? o)
+                         ;; the two ends of one pipe: both numbers named the same pipe:[inode] at creation
+                         (string? (vector-ref LNK (cadr op)))
+                         (equal? (vector-ref LNK (cadr op)) (vector-ref LNK (list-ref op 2)))
+                         (> (string-length (vector-ref LNK (cadr op))) 5)
+                         (string=? (substring (vector-ref LNK (cadr op)) 0 5) "pipe:"))
+                    (let ((msg (string-append "z" (number->string zn))))
+                      (write-string
+                       (guard (e (#t "Zbad:exception"))
+                         (write-string msg o) (newline o) (flush-output-port o)
+                         (if (char-ready? in)
+                             (let ((l (read-line in)))
+                               (if (equal? l msg) "Zok" "Zbad:other-data"))
+                             "Zbad:nothing-to-read"))
+                       out))
+                    (write-string "Zskip" out))))
          (else (error "bad op" op))))
      ops)))
 
